@@ -95,6 +95,29 @@ def discharge(b, s):
                 n = array_len(b, side)
                 if n and z == 0:
                     return "divisor is the length of a %d-element array" % n
+                # a dominating match / if on the very same value sends 0 elsewhere: `match n { 0 => .., n => x / n }`
+                if z == 0:
+                    def same(a, c2):
+                        if a[0] == c2[0] == "call":
+                            return a[1].bb == c2[1].bb
+                        if a[0] in ("cast", "copy") :
+                            return same(a[1], c2)
+                        if c2[0] in ("cast", "copy"):
+                            return same(a, c2[1])
+                        return a == c2
+                    for gbb, vals, nb in b.guards_of(s["bb"]):
+                        so = b.switch_origin(gbb)
+                        vs = [str(x) for x in vals]
+                        term = b.blocks[gbb]["term"]
+                        if same(so, side) and "0" not in vs and ("otherwise" not in vs or any(str(v2) == "0" for v2, _ in term["targets"])):
+                            return "a dominating switch on the divisor routes 0 elsewhere"
+                        # `if n == 0 { return }` / `if n != 0 { .. }` forms
+                        cmpc = mir.norm_cmp(so, lambda o: same(o, side))
+                        if cmpc is not None and mir.o_const_value(cmpc[2]) == 0:
+                            op = cmpc[0]
+                            taken_true = vs != ["0"] and "0" not in vs
+                            if (op == "Ne" and taken_true) or (op == "Eq" and vs == ["0"]) or (op == "Gt" and taken_true):
+                                return "guarded by a comparison of the divisor with 0"
     if k == "assert:bounds":
         idx = b.origin(t["msg"]["index"])
         ln = const_of(b, t["msg"]["len"])
